@@ -861,7 +861,9 @@ class EventBus:
             await asyncio.sleep(0)  # Yield to event loop
 
             # Double-check we're truly idle - if new events came in, wait again
-            while not self._on_idle.is_set() or self.events_started or self.events_pending:
+            # also look at the queue itself: a forwarded or re-dispatched event that is already started/completed elsewhere
+            # is neither 'pending' nor 'started' in the history, and dispatch() does not clear the idle flag
+            while not self._on_idle.is_set() or self.events_started or self.events_pending or self.event_queue.qsize():
                 if timeout is not None:
                     elapsed = asyncio.get_event_loop().time() - start_time
                     remaining_timeout = max(0, timeout - elapsed)
